@@ -3,6 +3,8 @@ import Driver.Filter
 import Driver.Render
 import Driver.Tok
 import Driver.Registry
+import Driver.Table
+import Driver.Footnote
 namespace Driver
 
 def handle (line : String) : String :=
@@ -12,6 +14,8 @@ def handle (line : String) : String :=
   | "render" :: rest => handleRender rest
   | "tok" :: rest => handleTok rest
   | "registry" :: rest => handleRegistry rest
+  | "table" :: rest => handleTable rest
+  | "footnote" :: rest => handleFootnote rest
   | _ => bad
 
 partial def loop (hin hout : IO.FS.Stream) : IO Unit := do
